@@ -67,6 +67,7 @@ func (tc TimeCodec) Read(data []byte, ptr unsafe.Pointer, wt plenccore.WireType)
 	var e ptime
 	var offset int
 	for offset < l {
+		verifYield("time.read")
 		wt, index, n := plenccore.ReadTag(data[offset:])
 		offset += n
 
@@ -185,6 +186,7 @@ func (tc TimeCompatCodec) Read(data []byte, ptr unsafe.Pointer, wt plenccore.Wir
 	var e ptime
 	var offset int
 	for offset < l {
+		verifYield("time.read")
 		wt, index, n := plenccore.ReadTag(data[offset:])
 		offset += n
 
